@@ -215,4 +215,21 @@ theorem gen_rolling_centres_eq_model (es ns : List Rat) (size : Rat) (region : O
           cases gridLines [r.w + size / 2, r.e - size / 2, r.s + size / 2, r.n - size / 2] ⟨shape, spacing, C07.adjOf adj, false⟩ <;> rfl
 
 
+/-! ### The regenerated source satisfies the property -/
+/-- The translated prelude of `rolling_window`: whenever it returns centre lines, they are the grid lines (requested shape / spacing / adjust,
+    grid-line registered) of the region shrunk by half a window on each side, and the window fits into the region. -/
+theorem src_rolling_centres (es ns : List Rat) (size : Rat) (region : Option (Rat × Rat × Rat × Rat)) (shape : Option (Nat × Nat))
+    (spacing : Option (List Rat)) (adj : String) (east north : List Rat)
+    (h : Gen.rollingCentres es ns size spacing (shape.map fun p => ((p.1 : Int), (p.2 : Int))) region adj = .ok (east, north)) :
+    ∃ w e s n, blockRegion es ns ⟨region.map C08.quadList, shape, spacing, C07.adjOf adj⟩ = .ok [w, e, s, n] ∧
+      size ≤ ratMin (e - w) (n - s) ∧
+      gridLines [w + size / 2, e - size / 2, s + size / 2, n - size / 2] ⟨shape, spacing, C07.adjOf adj, false⟩ = .ok (east, north) := by
+  rw [gen_rolling_centres_eq_model] at h
+  cases hr : rollingWindow es ns size ⟨region.map C08.quadList, shape, spacing, C07.adjOf adj⟩ with
+  | error err => simp [hr, Except.map] at h
+  | ok o =>
+    simp only [hr, Except.map, Except.ok.injEq, Prod.mk.injEq] at h
+    obtain ⟨w, e, s, n, h1, h2, h3, _, _⟩ := rolling_structure es ns size _ o hr
+    exact ⟨w, e, s, n, h1, h2, by rw [h3, h.1, h.2]⟩
+
 end Verde.C14
